@@ -385,6 +385,14 @@ def worker(run, st_, k, items):
                     if l2 == loc:
                         # the location itself: a dependency only if its change is not simply carried through
                         pa, pb = get_loc(pre, l2), get_loc(s2, l2)
+                        if a == pa and b == pb and pa != pb and l2[0] in ("flag", "reg") and covered(l2, wn, wc) and not covered(l2, rn, rc) \
+                                and inst["family"] not in ("bsf", "bsr"):
+                            # (bsf / bsr leave their destination architecturally undefined for a zero source: not judged)
+                            # the processor carries the location through unchanged (two different initial values, everything else
+                            # equal), yet the lifted semantics claim to WRITE it: a semantics that writes it can only produce the
+                            # processor's result by reading it, so its absence from the read set omits a real dependency
+                            dep = True
+                            break
                         if (a == pa and b == pb) or (a == b):
                             continue
                         if isinstance(a, int) and isinstance(pa, int) and (a ^ b) == (pa ^ pb) and l2[0] != "flag":
@@ -422,6 +430,17 @@ def report(st_, inst, code, sidx, run, kind, loc, det):
         st_.fail(sig, det, {"inst": inst, "code": code.hex(), "state": sidx, "seed": run.seed, "sig": list(sig)})
 
 
+def count_cls(i):
+    """class of an immediate shift / rotate count: the processor masks it to 5 bits, so 32 behaves like 0 (nothing is written and the
+    old flags shine through) although it is not written as 0; counts at or above the operand width are their own class for 8 / 16 bits"""
+    c = i.get("count")
+    if c in (None, 0, 1, "cl"):
+        return c
+    if c & 31 == 0:
+        return "0-after-masking"
+    return "<w" if (c & 31) < i["size"] else ">=w"
+
+
 def all_instances(run):
     insts = [i for i in coregen.instances("quick")]
     if run.quick:
@@ -430,7 +449,7 @@ def all_instances(run):
         for i in insts:
             ops = i["text"].split(None, 1)[1].split(", ") if " " in i["text"] else []
             same = len(ops) == 2 and ops[0] == ops[1]          # op r, r (xor / sub / sbb idioms) is its own class
-            key = (i["family"], i["size"], i["form"], i.get("cc"), i.get("count") if i.get("count") in (0, 1, "cl") else "n", same)
+            key = (i["family"], i["size"], i["form"], i.get("cc"), count_cls(i), same)
             if key in seen:
                 continue
             seen.add(key)
